@@ -270,7 +270,11 @@ def remove_nodes(source: str, nodes: Iterable[ast.AST], root: ast.Module) -> str
         str: Code after deleting nodes
     """
     keep_mask = [True] * len(source)
-    nodes = list(nodes)
+    nodes = [
+        node
+        for node in nodes
+        if not core.has_ignore_comment(source, core.Range(*core.get_charnos(node, source)))
+    ]
     for node in nodes:
         start, end = core.get_charnos(node, source)
 
